@@ -119,7 +119,8 @@ typedef struct cxx_in_addr { uint32_t s_addr; } cxx_in_addr;
 typedef struct cxx_in6_addr { uint8_t s6_addr[16]; } cxx_in6_addr;
 typedef struct cxx_timeval { int64_t tv_sec; int64_t tv_usec; } cxx_timeval;
 typedef struct cxx_random_device { char _; } cxx_random_device;
-typedef struct cxx_rng { char _; } cxx_rng;   /* std::mt19937(_64) / uniform_int_distribution: opaque */
+typedef struct cxx_rng { char _; } cxx_rng;
+typedef struct cxx_path { char _; } cxx_path;   /* std::filesystem::path: opaque (its text is not modelled) */   /* std::mt19937(_64) / uniform_int_distribution: opaque */
 #ifndef CXX_NATIVE
 uint32_t nondet_u32(void);
 static inline uint32_t cxx_nondet_u32(void) { return nondet_u32(); }   /* std::random_device: any value */
@@ -172,6 +173,16 @@ __CPROVER_ensures(af == 10 ==> (__g_ntop_bytes[12] == NTOP_SRC(12) && __g_ntop_b
 }
 #endif
 
+/* clocks: ghost monotone readings.  By default every call returns an arbitrary value not smaller than the previous one (so "exactly at
+   the deadline" is just one symbolic case); with __g_clock_fixed the harness sets the reading explicitly. */
+int64_t __g_clock_steady, __g_clock_system; _Bool __g_clock_fixed;
+#ifndef CXX_NATIVE
+int64_t nondet_i64(void);
+static inline int64_t cxx_clock_now_steady(void)
+{ if (!__g_clock_fixed) { int64_t t = nondet_i64(); __CPROVER_assume(t >= __g_clock_steady && t <= 4600000000000000000l); __g_clock_steady = t; } return __g_clock_steady; }
+static inline int64_t cxx_clock_now_system(void)
+{ if (!__g_clock_fixed) { int64_t t = nondet_i64(); __CPROVER_assume(t >= __g_clock_system && t <= 4600000000000000000l); __g_clock_system = t; } return __g_clock_system; }
+#endif
 static inline uint64_t cxx_strlen(const char *s) { uint64_t n = 0; while (s[n] != 0) ++n; return n; }
 static inline int cxx_isdigit(int c) { return c >= '0' && c <= '9'; }
 static inline int cxx_isxdigit(int c) { return (c >= '0' && c <= '9') || (c >= 'a' && c <= 'f') || (c >= 'A' && c <= 'F'); }
@@ -342,6 +353,11 @@ static inline uint64_t cxx_str_bytes(uint64_t n) { return n + 1; }
     for (uint64_t __k = pos + m; __k < v->n; ++__k) v->p[__k - m] = v->p[__k]; \
     v->n -= m; } \
   static inline str str_substr(str a, uint64_t pos, uint64_t cnt) \
+  /* contract (for unbounded proofs): length and freshness of the result; its characters are not described */ \
+  __CPROVER_requires(a.n <= 0x0000FFFFFFFFFFFFul && (a.n == 0 || __CPROVER_r_ok(a.p, a.n))) \
+  __CPROVER_assigns(__exc) \
+  __CPROVER_ensures((pos > a.n) ==> (__exc == EXC_out_of_range)) \
+  __CPROVER_ensures((pos <= a.n) ==> (__exc == __CPROVER_old(__exc) && __CPROVER_return_value.n == (cnt < a.n - pos ? cnt : a.n - pos) && __CPROVER_is_fresh(__CPROVER_return_value.p, __CPROVER_return_value.n + 1))) \
   { if (pos > a.n) { __exc = EXC_out_of_range; str z = {0}; return z; } \
     uint64_t m = a.n - pos; if (cnt < m) m = cnt; return str_from_n(a.p + pos, m); } \
   static inline strview strview_from_cstr(const char *s) { strview r; r.p = (char *)s; r.n = cxx_strlen(s); return r; } \
@@ -350,6 +366,11 @@ static inline uint64_t cxx_str_bytes(uint64_t n) { return n + 1; }
     strview r; uint64_t m = a.n - pos; if (cnt < m) m = cnt; r.p = a.p + pos; r.n = m; return r; }
 /* s.rfind(lit, 0): 0 if s starts with lit, npos otherwise */
 static inline uint64_t cxx_rfind0_cstr(const char *p, uint64_t n, const char *lit)
+#ifndef CXX_NATIVE
+__CPROVER_requires(n == 0 || __CPROVER_r_ok(p, n))
+__CPROVER_assigns()
+__CPROVER_ensures(__CPROVER_return_value == 0 || __CPROVER_return_value == (uint64_t)-1)
+#endif
 { uint64_t m = cxx_strlen(lit); if (m > n) return (uint64_t)-1; for (uint64_t __k = 0; __k < m; ++__k) if (p[__k] != lit[__k]) return (uint64_t)-1; return 0; }
 static inline uint64_t cxx_find_char(const char *p, uint64_t n, char c, uint64_t from)
 { for (uint64_t __k = from; __k < n; ++__k) if (p[__k] == c) return __k; return (uint64_t)-1; }
